@@ -2,6 +2,7 @@ package checks
 
 import (
 	"encoding/json"
+	"strings"
 	"time"
 
 	"verif/mc/evid"
@@ -27,13 +28,13 @@ func init() {
 				b = 2
 			}
 			return evid.Spec{ID: "C15", Level: "model_checking", Exhaustive: true,
-				Rule: "stateless exploration of goroutine interleavings of the real code (sync, go statements, loader channels redirected to a cooperative scheduler by mc/cmd/instrument) for 10 harnesses: H1 two connections authorising commands of the same user; " +
-					"H2 accept loop with connections opening/closing/refused; H3/H3b lookups concurrent with one/two reloads of different configurations; H4-yaml/H4-json a consumer walking a published configuration while the same loader object loads the next document; " +
-					"H5 a connection multiplexing two sessions plus a second connection; H6 cancellation concurrent with serving; H7 a reload of a different configuration while a connection is being served; H8 two connections authorising sessions of the same user. Every choice vector with at most the stated number of deviations from the default schedule (continue the running thread, else lowest id) is executed, " +
+				Rule: "stateless exploration of goroutine interleavings of the real code (sync, go statements, channels and timers redirected to a cooperative scheduler with a virtual clock by mc/cmd/instrument) for " + fmtInt(int64(len(c15Names))) + " harnesses: " + strings.Join(c15Names, "; ") + ". Every choice vector with at most the stated number of deviations from the default schedule (continue the running thread, else first enabled by priority) is executed, " +
 					"iterating the bound 0,1,..; each execution runs under -race with the scheduler's own hand-offs hidden from ThreadSanitizer and the modelled primitives issuing the real acquire/release edges, so a report is a pair of accesses the program's own synchronisation leaves unordered. " +
 					"Oracles: zero race reports; every lookup observes one complete configuration (H3); a published configuration is never written again (H4); functional replies unchanged. states = harnesses explored; transitions = primitive operations executed; traces = executions with no finding",
 				Assumptions: []string{"happens-before edges of the modelled primitives mirror sync.Mutex/RWMutex/WaitGroup/Once and channel semantics; where exact modelling is awkward more edges are issued (may hide, cannot invent a race)",
-					"statement-level scheduling points only inside loader.updates; elsewhere preemption happens at synchronisation and I/O operations"},
+					"statement-level scheduling points in loader.updates, crypt.go, types.go:TrimSpace and the handler/authorizer/authenticator/accounter files; elsewhere preemption happens at synchronisation and I/O operations",
+					"timers are virtual: a timer fires when the harness advanced the clock to it or when no program thread can run, at most 4 times per execution",
+					"ThreadSanitizer's happens-before includes the standard library's own edges (sync.Pool annotations inside fmt/json)"},
 				Extra: map[string]interface{}{"deviation_bound_target": b}}
 		},
 		Workers:      constInt(0, 0),
@@ -100,4 +101,29 @@ func fmtInt(n int64) string {
 		return string(rune('0' + n))
 	}
 	return fmtInt(n/10) + string(rune('0'+n%10))
+}
+
+// c15Names are the harnesses of C15 (checked against the job table when the scheduler worker starts).
+var c15Names = []string{
+	"H1 two connections, same user, one command authorization each",
+	"H2 accept loop with connections opening and closing",
+	"H3 two lookups concurrent with a reload of a different configuration",
+	"H3b lookup concurrent with two reloads",
+	"H4-yaml consumer of a published configuration concurrent with the next load",
+	"H4-json consumer of a published configuration concurrent with the next load",
+	"H11 two connections logging the same user in (PAP), one with the right and one with a wrong password",
+	"H12 load of a configuration whose user sits in three scopes, with group rules merged into slices that have spare capacity (as a JSON decode leaves them)",
+	"H10-yaml the loader's update loop polling a file loader while the watcher loads the next document",
+	"H10-json the loader's update loop polling a file loader while the watcher loads the next document",
+	"H5 one connection multiplexing two sessions plus a second connection",
+	"H7 reload of a different configuration while a connection is being served",
+	"H16 a lookup held up in the secret store across a reload, then another lookup for the same address",
+	"H17-full accounting through the DEFAULT file sink while the clock ticks; the file is /dev/full (every write fails)",
+	"H17-file accounting through the DEFAULT file sink while the clock ticks; the file is a scratch file",
+	"H15 two connections of a server whose secret provider hands out ONE key slice (with spare capacity) to every connection",
+	"H14 two connections asking for user names in spellings the configuration does not have",
+	"H13 reload introducing new command patterns while a command with pattern rules is being authorized",
+	"H8 two connections, same user, one session authorization each",
+	"H6 cancellation concurrent with serving",
+	"H9 cancellation racing the next request of an idle connection that holds a pending session",
 }
